@@ -292,7 +292,17 @@ def ref_slice(children, a, b, leaf):
 
 
 def build_marks(schema, marks):
-    return [schema.marks[n].create(json.loads(a)) for n, a in marks]
+    """Marks of a generated document.  A mark whose attributes all equal the type's defaults is
+    created the way `schema.mark(name)` does it - without attrs, which yields the type's shared
+    instance - so that documents hold that instance while steps and decoded JSON bring equal
+    marks that are separate objects."""
+    out = []
+    for n, a in marks:
+        mt = schema.marks[n]
+        at = json.loads(a)
+        inst = getattr(mt, "instance", None)
+        out.append(mt.create() if inst is not None and inst.attrs == at else mt.create(at))
+    return out
 
 
 def build(schema, c):
